@@ -640,6 +640,9 @@ public:
      * @exception DOMException
      *   NOT_SUPPORTED_ERR: Raised when the type of the specified node is
      *   neither <code>ELEMENT_NODE</code> nor <code>ATTRIBUTE_NODE</code>.
+     *   <br>INVALID_CHARACTER_ERR: Raised if the new qualified name is not an
+     *   XML name according to the XML version in use specified in the
+     *   <code>DOMDocument.xmlVersion</code> attribute.
      *   <br>WRONG_DOCUMENT_ERR: Raised when the specified node was created
      *   from a different document than this document.
      *   <br>NAMESPACE_ERR: Raised if the <code>qualifiedName</code> is
